@@ -20,8 +20,9 @@ Theorem C18_mutual_exclusion : forall P ths s, well_locked P ths -> reachable (i
 Proof. exact mutual_exclusion. Qed.
 Print Assumptions C18_mutual_exclusion.
 
-(* a pool whose every access is covered (common lock / confinement to one thread / read-only / atomic
-   only) has no reachable state with two enabled conflicting accesses *)
+(* a pool whose every access is covered (common lock / confinement to one uniquely labelled thread /
+   handed over from parent to child by a spawn / read-only / atomic only) has no reachable state with two
+   enabled conflicting accesses *)
 Theorem C18_lockset_sound : forall P ths, well_locked P ths -> forall s, reachable (init_state ths) s -> ~ race s.
 Proof. exact lockset_sound. Qed.
 Print Assumptions C18_lockset_sound.
@@ -55,6 +56,13 @@ Print Assumptions C18_example_good.
 Theorem C18_example_bad : exists s, reachable (init_state ex_bad) s /\ race s.
 Proof. exact ex_bad_race_reachable. Qed.
 Print Assumptions C18_example_bad.
+
+(* happens-before by spawn: initialise, then `go`: race free; one more parent access after the go
+   statement: rejected by the static condition, and a race is reachable *)
+Theorem C18_example_spawn_handoff : (forall s, reachable (init_state ex_hb_good) s -> ~ race s) /\
+  handoff_ok 7%N 0 1 ex_hb_bad = false /\ exists s, reachable (init_state ex_hb_bad) s /\ race s.
+Proof. exact (conj ex_hb_good_race_free (conj ex_hb_bad_rejected ex_hb_bad_races)). Qed.
+Print Assumptions C18_example_spawn_handoff.
 
 Theorem C18_example_table_bad : locktable_ok (fun _ => false) ex_table_bad = false /\
   exists s, reachable (init_state (program_of ex_table_bad)) s /\ race s.
